@@ -10,7 +10,7 @@ new_loop=["    // Carry on with the remaining sources after one of them fails (a
 "    // cp does); the outcome is reported once every source was tried.",
 "    let mut result = Ok(());",
 "    for source in sources {",
-"        result = walk_source(source, dest, config, &work_tx, &stats, &mut produced);",
+"        result = walk_source(source, dest, config, &work_tx, &stats, &mut produced, &mut written);",
 "        if let Err(e) = &result {",
 "            error!(\"{}\", e);",
 "        }",
@@ -23,6 +23,7 @@ func=["",
 "    work_tx: &cbc::Sender<Operation>,",
 "    stats: &Arc<dyn StatusUpdater>,",
 "    produced: &mut HashMap<PathBuf, PathBuf>,",
+"    written: &mut HashMap<(u64, u64), PathBuf>,",
 ") -> Result<()> {"]+ded+["    Ok(())","}"]
 rest=L[end+1:]
 ri=next(i for i,l in enumerate(rest) if l=="    Ok(())")
